@@ -1,5 +1,5 @@
 """C04 — labels, data labels and constants resolve to the right place in every mode."""
-from harness import chk, labels
+from harness import chk, includes, labels
 
 ID = "C04"
 MODULES = ["HeraProofs.Props.C04"]
@@ -17,10 +17,15 @@ ASSUMPTIONS = ["the equality of get_labels' fold with the declarative placement 
 def run(ctx):
     thorough, seed = ctx["thorough"], ctx["seed"]
     total = {"evaluations": 0, "disagreements": [], "violations": [], "streams": {}}
-    progs = chk.gen_prog_items(seed + 9, 2000 if thorough else 240)
+    progs = chk.gen_prog_items(seed + 9, 8000 if thorough else 240)
     parts = (("check-model", chk.check_texts(progs)),
-             ("labels", labels.check_programs(seed, 600 if thorough else 80)),
-             ("relative", labels.check_relative(seed, 800 if thorough else 120)))
+             ("labels", labels.check_programs(seed, 3000 if thorough else 80)),
+             ("relative", labels.check_relative(seed, 4000 if thorough else 120)))
+    # labels across includes: the checked program of an include graph equals that of the flattened text
+    inc = includes.check(seed + 5, 1500 if thorough else 150)
+    inc["violations"] = [dict(v, property="C04") for v in inc["violations"] if v.get("sig") == "include:program"]
+    inc["disagreements"] = []
+    parts = parts + (("includes", inc),)
     for name, rr in parts:
         total["evaluations"] += rr["evaluations"]
         total["disagreements"] += rr["disagreements"]
@@ -38,6 +43,8 @@ def replay(obj):
     case = obj["case"]
     if obj.get("stream") in ("relative", "labels"):
         return labels.replay_case(obj["stream"], case)
+    if obj.get("stream") == "includes":
+        return includes.replay_case(case)
     if obj.get("stream") == "chk":
         r = chk.check_texts([case])
         v = [x for x in r["violations"] if x.get("property", ID) == ID]
